@@ -116,9 +116,67 @@ def run_version(args):
                                  {"version": version, "command": name, "rx": rlab, "k": k}))
                 if stats["sample"] is None and tvals and rvals:
                     stats["sample"] = {"version": version, "command": name, "tx": repr(tvals)[:120], "rx": repr(rvals)[:120]}
+        history_cases(ctx, t, version, viol, stats)
     finally:
         ctx.close()
     return version, viol, stats
+
+
+HISTORY_COMMANDS = ["nop", "version", "getValue", "getEui64", "getConfigurationValue", "echo"]
+
+
+def history_cases(ctx, t, version, viol, stats):
+    """The codec on an EZSP object with a history: (1) a command whose reply was lost (time-out), then more than 256 further
+    calls -- every one must still carry its own next sequence number and complete on the reply under it; (2) a reset of the
+    same EZSP object -- the commands used before must now be framed in the legacy layout by the fresh handler, and in the
+    version's own layout again after the handler is switched back."""
+
+    def simple(ver, name, tag):
+        cls = ezspenv.handler_class(ver)
+        if name not in cls.COMMANDS:
+            return
+        cid, tx, rx = cls.COMMANDS[name]
+        txs, rxs = tuples_for(tx, False), tuples_for(rx, False)
+        if not txs or not rxs:
+            return
+        msg = one_call(ctx, t, ver, name, cid, tx, rx, txs[0][1], rxs[0][1], "positional")
+        stats["calls"] += 1
+        if msg:
+            viol.append((f"C07|history|{tag}|{msg.split(':')[0]}", f"v{version} {name} {tag}: {msg}", {"version": version, "command": name, "history": tag}))
+        return msg
+
+    # (1) lost reply, then a full turn of the sequence numbers
+    n0 = len(ctx.gw.sent)
+    task = ctx.loop.create_task(ctx.ezsp._command("nop"))
+    ctx.loop.settle()
+    if len(ctx.gw.sent) == n0 + 1:
+        ctx.seq = (ctx.seq + 1) % 256
+        ctx.loop.run_until_idle(horizon=ctx.loop.time() + 60.0)
+        if not task.done():
+            task.cancel()
+            ctx.loop.settle()
+        elif not task.cancelled():
+            task.exception()
+        for k in range(300):
+            if simple(version, HISTORY_COMMANDS[k % len(HISTORY_COMMANDS)], "after a lost reply"):
+                break
+    # (2) reset of the same EZSP object: legacy framing by a fresh handler, then the version's own layout again
+    rt = ctx.loop.create_task(ctx.ezsp.reset())
+    ctx.loop.run_until_idle(horizon=ctx.loop.time() + 30.0)
+    if not rt.done() or rt.exception() is not None:
+        viol.append(("C07|history|reset", f"v{version}: EZSP.reset() on the simulated gateway did not complete: {rt!r}", {"version": version, "command": "nop", "history": "reset"}))
+        return
+    ctx.seq = 0
+    for name in HISTORY_COMMANDS:
+        if simple(4, name, "after a reset of the same EZSP object (legacy layout expected)"):
+            break
+    sw = getattr(ctx.ezsp, "_switch_protocol_version", None)
+    if sw is not None and version != 4:
+        sw(version)
+        ctx.seq = 0
+        for name in HISTORY_COMMANDS:
+            if simple(version, name, "after reset and re-negotiation on the same EZSP object"):
+                break
 
 
 def expected_payload(tx, tvals):
@@ -248,6 +306,14 @@ def replay(data) -> int:
     import bellows.types as t
 
     version, name = data["version"], data["command"]
+    if data.get("history"):
+        ctx = Ctx(version)
+        viol, stats = [], {"calls": 0}
+        history_cases(ctx, t, version, viol, stats)
+        ctx.close()
+        for v in viol:
+            print(v[1])
+        return 1 if viol else 0
     cls = ezspenv.handler_class(version)
     cid, tx, rx = cls.COMMANDS[name]
     print("schema:", tx, rx)
